@@ -9,7 +9,6 @@ HARNESSES = {
     'K-fname': dict(path='rolling::directory::verif_kani::k_fname', fn='k_fname', bounded=False, bound='all 2^192 24-byte names (byte 4 a char boundary); loops bounded by the constant width 24, unwinding assertions on'),
     'K-fname-len': dict(path='rolling::directory::verif_kani::k_fname_len', fn='k_fname_len', bounded=False, bound='all lengths 0..=32 except 24, all byte contents; loop-free'),
     'K-fname-rt': dict(path='rolling::file_number::verif_kani::k_fname_rt', fn='k_fname_rt', bounded=True, bound='file numbers d*10^k, d in 0..=9, k in 0..=19 (one symbolic decimal digit at any place value)'),
-    'K-gate': dict(path='rolling::directory::verif_kani::k_gate', fn='k_gate', bounded=True, bound='a tracker of exactly two files, the oldest pinned or not by a live clone'),
     'K-handles': dict(path='rolling::file_number::verif_kani::k_handles', fn='k_handles', bounded=True, bound='fixed shape: 3 appends over 2 files, truncate position symbolic in 0..=3'),
     'K-hdr': dict(path='frame::header::verif_kani::k_hdr_roundtrip', fn='k_hdr_roundtrip', bounded=False, bound='all 2^56 7-byte headers; loop-free'),
     'K-le': dict(path='frame::header::verif_kani::k_le', fn='k_le', bounded=False, bound='all u16/u32/u64 values; loops bounded by the byte width'),
